@@ -178,6 +178,8 @@ def _check(r, prefix):
             V("raw-out-differs", "raw_out is exactly the bytes written", v["raw"][:60], data[:60])
     else:
         mode = stages[1][0]
+        if kind == "object" and v.get("raw") is not None:
+            out = v["raw"].decode("latin1")  # `.out` drops the newline of a one-line output (stream_lines)
         stripped = (out or "").replace("B:", "")
         full = data.decode("latin1")
         if mode == "pass":
